@@ -12,7 +12,7 @@ CASES_HEADER = ("Require Import Nib.C20.SMapDef Nib.C20.Model Nib.C20.Spec Nib.C
 CASE_TYPE = "case"
 MISMATCH_FN = "mismatch current_cfg"
 VIOLATES_FN = "violates"
-RULE = ("case = a generated state-building history of 6-22 ops on a real app (EVM contracts with constructor storage, "
+RULE = ("case = a generated state-building history (3-9 segments of related ops + single ops, ~5-30 ops) on a real app (EVM contracts with constructor storage, "
         "SSTOREs incl. clearing, self-destructs, code-less contracts, ERC20 + FunToken both ways, conversions, "
         "token-factory denoms/admin hand-over/custom metadata/mints, sudoers edits and root change, inflation toggles and "
         "param edits, day-long blocks (epochs tick, inflation hook), fee shares, oracle feeder delegations, prevotes, "
@@ -211,6 +211,12 @@ def classify(rec):
         ks.append("op:" + op["k"])
     for f in features(rec):
         ks.append("feature:" + f)
+    g = rec["obs"]["e1"]
+    for name, l in (("miss-counters", g["oracle"]["miss"]), ("exchange-rates", g["oracle"]["rates"]), ("prevotes", g["oracle"]["prevotes"]),
+                    ("votes", g["oracle"]["votes"]), ("rewards", g["oracle"]["rewards"]), ("feeders", g["oracle"]["feeders"])):
+        if l:
+            ks.append("exported:" + name)
+    tp = {t[0]: t[1] for t in rec["obs"]["tables"]["tfparse"]}
     ks.append("import:" + ("ok" if rec["obs"]["import_ok"] else "panic"))
     ks.append("rejected_ops=%d" % min(rec.get("failed_ops", 0), 9))
     return ks
@@ -251,6 +257,13 @@ def diffs(rec):
         out.append("queries")
     if o["env1"] != o["env2"]:
         out.append("auth-accounts")
+    may_differ = {(1, 1), (1, 10), (1, 9), (3, 1), (0, 1), (0, 2)}
+    kv1 = {(a, b): (n, d) for a, b, n, d in o["kv1"]}
+    kv2 = {(a, b): (n, d) for a, b, n, d in o["kv2"]}
+    stores = ["evm", "oracle", "inflation", "epochs", "sudo", "tokenfactory", "devgas"]
+    for k in sorted(set(kv1) | set(kv2)):
+        if k not in may_differ and kv1.get(k) != kv2.get(k):
+            out.append("raw-kv:%s/%d" % (stores[k[0]], k[1]))
     return out
 
 
